@@ -382,6 +382,11 @@ def location_table(fb):
                     return ok([])
                 if c.endswith("LibraryName::path"):
                     return PathTok("relative-path-of-name")
+                if end in ("as_os_str", "as_os_string", "as_mut_os_str", "into_os_string", "as_encoded_bytes") and a and isinstance(a[0], PathTok):
+                    return a[0]
+                if end == "is_empty" and a and isinstance(a[0], PathTok):
+                    fl = getattr(a[0], "flavour", None)
+                    return (fl == "empty") if fl in ("relative", "absolute", "empty") else UNKNOWN
                 if ("path::Path" in c or "PathBuf" in c) and end in ("is_absolute", "is_relative", "has_root") and a and isinstance(a[0], PathTok):
                     # what kind of path the program was named by: `prog/main.scm` (relative), `/abs/prog/main.scm`, `main.scm` (empty parent)
                     fl = getattr(a[0], "flavour", None)
@@ -406,10 +411,30 @@ def location_table(fb):
                 if c.endswith("io::file_char_stream"):
                     ev.append(("open", a[0]))
                     return ok(Val("char-stream")) if exists else err(Val("io-error"))
+                if c.endswith("Lexer::from_char_stream"):
+                    return Val("lexer")               # (the file is read by the function itself instead of the factory's reader)
+                if c.endswith("Parser::from_lexer"):
+                    ev.append(("parse", a[0] if a else None))
+                    return parser_
+                if a and a[0] is parser_ and end in ("into_iter", "by_ref"):
+                    return parser_
+                if a and a[0] is parser_ and c.endswith("::next"):
+                    k_[0] += 1
+                    return some(ok(libdef_)) if k_[0] == 1 else none()
+                if a and a[0] is parser_ and end in ("find_map", "find", "try_fold", "filter_map", "map", "filter", "try_for_each"):
+                    items = machine.Iter([ok(libdef_)] if k_[0] == 0 else [])
+                    k_[0] = 1
+                    return mc._iter_model(c, end, [items] + list(a[1:]), tt, g)
                 if c.endswith("from_char_stream"):
                     ev.append(("parse", a[0]))
                     return ok(Val("factory"))
                 return NOT
+            parser_, k_ = Val("parser"), [0]
+            st_ = dict((n, i) for i, n in fb.variants("parser::parser::Statement"))
+            ld_ = Enum(0, [[name, []], some([9, 1])])
+            ld_.name, ld_.adt = "Located", "error::Located"
+            libdef_ = Enum(st_["LibraryDefinition"], [ld_])
+            libdef_.name, libdef_.adt = "LibraryDefinition", "parser::parser::Statement"
             mc = Machine(fb, intercept=icpt, max_visits=6, budget=400)
             try:
                 res = mc.run(f, [selfv, located])
